@@ -209,6 +209,106 @@ def persistent(d0: int, d1: int, d2: int, order: int) -> bool:
     return ok()
 
 
+def _first_response(data):
+    try:
+        m = refhttp.read_message(data, True)
+    except refhttp.Malformed:
+        return None
+    return m
+
+
+def pooled(d0: int, d1: int, d2: int, late: int) -> bool:
+    """
+    pre: 97 <= d0 <= 122 and 97 <= d1 <= 122 and 97 <= d2 <= 122
+    pre: 0 <= late <= 1
+    post: _
+    """
+    begin()
+    # --enable-conn-pool: client A sends two requests on one connection and goes away while the answer to the second one is still
+    # outstanding; client B then asks the same origin. Whatever connection B's request travels on, B receives exactly the answer
+    # to ITS request (never the late answer to A's request).
+    origin = b'o1.example'
+    nfollow = CFG['nfollow']        # requests A sends after its first one (0: A leaves after one complete exchange)
+    pa = [b'/a' + B(d0), b'/b' + B(d1)]
+    pb = b'/c' + B(d2)
+
+    def req(pth):
+        return b'GET http://' + origin + pth + b' HTTP/1.1\r\nHost: ' + origin + b'\r\n\r\n'
+    with concrete():
+        env = envkit.new_env()
+        xk = envkit.Executor(scen.FLAGS['forward_pool'], env)
+        env.upstream_factory = lambda addr: env.sock('up:' + addr[0])
+        ca = xk.accept('clientA')
+    answered = {}        # id(upstream socket) -> number of complete requests answered
+
+    def ups():
+        return [s_ for a, s_ in env.connects if not isinstance(s_, BaseException)]
+
+    def answer(us, hold=0):
+        """Let the upstream answer every request it has completely received, except the last `hold` ones."""
+        got, rest = _split_requests(us.out)
+        k = answered.get(id(us), 0)
+        while k < len(got) - hold and not us.closed:
+            us.inq.append(scen.response(b'o1#' + got[k]['start'][1], b'A:' + got[k]['start'][1]))
+            k += 1
+        answered[id(us)] = k
+
+    def steps(n):
+        for _ in range(n):
+            e = xk.step()
+            if e is not None:
+                return e
+        return None
+    ca.inq.append(req(pa[0]))
+    for _ in range(6):
+        for us in ups():
+            answer(us)
+        e = steps(1)
+        if e is not None:
+            return fail('exception escaped the executor loop', exc=repr(e))
+    m = _first_response(ca.out)
+    if m is None or m['body'] != b'A:' + pa[0]:
+        return fail('client A did not receive the answer to its first request', out=repr(ca.out[:80]))
+    old = ups()
+    if nfollow:
+        ca.inq.append(req(pa[1]))
+        e = steps(4)
+        if e is not None:
+            return fail('exception escaped the executor loop', exc=repr(e))
+    # A goes away; its second request (if any) is unanswered so far
+    ca.inq.append(b'')
+    e = steps(3)
+    if e is not None:
+        return fail('exception escaped the executor loop', exc=repr(e))
+    if late == 0:
+        for us in old:
+            answer(us)            # the late answer arrives while nobody owns the connection
+        e = steps(2)
+        if e is not None:
+            return fail('exception escaped the executor loop', exc=repr(e))
+    cb = xk.accept('clientB', addr=('10.0.0.10', 5001))
+    cb.inq.append(req(pb))
+    e = steps(3)
+    if e is not None:
+        return fail('exception escaped the executor loop', exc=repr(e))
+    for _ in range(6):
+        for us in ups():
+            answer(us)            # answers in the order the requests were received on that connection
+        e = steps(1)
+        if e is not None:
+            return fail('exception escaped the executor loop', exc=repr(e))
+    m = _first_response(cb.out)
+    if m is None:
+        if cb.closed and cb.out == b'':
+            return fail('client B was dropped without an answer')
+        return fail('client B did not receive a complete response', out=repr(cb.out[:80]))
+    if m['body'] != b'A:' + pb:
+        return fail('client B received the answer to another client\'s request', got=repr(m['body']), want=repr(b'A:' + pb))
+    if m['remainder'] != b'':
+        return fail('client B received more than one response to one request', extra=repr(m['remainder'][:80]))
+    return ok()
+
+
 def selftest():
     return refhttp.selftest()
 
@@ -262,6 +362,9 @@ def obligations(tier):
                     (['up1.example', 'literal', 'up1.example'], 'upstream_literal_upstream')):
         add('reverse.n%d.%s.separate' % (len(ol), tag), role='reverse', n=len(ol), origins=ol, packing='separate')
         add('reverse.n%d.%s_client_waits.separate' % (len(ol), tag.replace('upstream_', 'up_')), role='reverse', n=len(ol), origins=ol, packing='separate', waits=True)
+    # connection pool: a client leaves with 0 or 1 answers outstanding, the next client asks the same origin
+    for nf in (0, 1):
+        obs.append({'name': 'pooled.followups%d' % nf, 'fn': 'pooled', 'cfg': {'nfollow': nf}, 'timeout': T, 'group': 'pooled'})
     return obs
 
 
@@ -272,7 +375,8 @@ META = {
                  'request optionally announcing Connection: close; packing: one request per segment, all in one segment, split at 6 positions '
                  'around the request boundary; upstream stubs answer every request they have completely received with a response naming the '
                  'origin and the request; a symbolic bit decides whether the client waits for answers before sending on; one symbolic path '
-                 'byte per request; real executor loop',
+                 'byte per request; real executor loop; --enable-conn-pool: a client that leaves with 0 or 1 answers outstanding followed by '
+                 'a second client asking the same origin (late answer before or after the second client\'s request: symbolic bit)',
         'thorough': '3 requests, cuts at every third position',
     },
     'outside': 'more than 3 requests, Connection: close on other than the last request, HTTP/1.0 clients, responses larger than one segment, TLS',
